@@ -59,7 +59,8 @@ QuotesSACK(strict, p, d) == QuoteFlow(strict, p, d) /\ d.q_seq = p.seq
 
 ReverseTuple(p, d) == d.src = p.dst /\ d.dst = p.src /\ d.sport = p.dport /\ d.dport = p.sport
 
-DirectICMP(p, d) == d.kind = "echo_rep" /\ d.src = p.dst /\ d.dst = p.src /\ d.eid = p.eid /\ d.eseq = p.eseq
+\* (the outer destination of an echo reply is not demanded: the statement lists target and identifier)
+DirectICMP(p, d) == d.kind = "echo_rep" /\ d.src = p.dst /\ d.eid = p.eid /\ d.eseq = p.eseq
 DirectSYN(p, d)  == d.kind = "tcp" /\ ReverseTuple(p, d)
                     /\ ((HasFlag(d, SYN) /\ HasFlag(d, ACK)) \/ HasFlag(d, RST))
                     /\ (HasFlag(d, ACK) => d.ack = Add32(p.seq, 1))
@@ -160,7 +161,8 @@ C01_run(H, snt, dl, hops) == \A k \in DOMAIN hops : hops[k].addr # "" => BackedB
 \* lowest TTL for which a proof-of-arrival reply was delivered in its window
 DestTTLs(H, snt, dl) ==
     {snt[j].ttl : j \in {j \in DOMAIN snt : \E i \in AnswersOf(H, snt, dl, j) :
-                              DestForm(V(H), snt[j].p, PktOf(H, dl[i])) /\ InWindow(H, snt, dl, j, i)}}
+                              /\ DestForm(V(H), snt[j].p, PktOf(H, dl[i])) /\ InCatalogue(V(H), PktOf(H, dl[i]))
+                              /\ InWindow(H, snt, dl, j, i)}}
 
 C02_run(H, snt, dl, hops) ==
     (IsSerial(V(H)) => NoLateReply(H, snt, dl)) =>
